@@ -136,6 +136,10 @@ EDITS = [
     ("retype-argument-int-to-float", "bump(by: Int = 1)", "bump(by: Float = 1)", "by"),
     ("retype-argument-string-to-id", "search(text: String!, limit: Int = 5", "search(text: ID!, limit: Int = 5", "text"),
     ("retype-field-object-to-interface", "  me: User\n", "  me: Named\n", "me"),
+    # narrowing an abstract output type to one of its members: fragments on the other members stop being spreadable
+    ("retype-field-union-to-member", "  pet: Pet\n", "  pet: Dog\n", "pet"),
+    ("retype-field-list-of-union-to-member", "  pets: [Pet!]\n", "  pets: [Cat!]\n", "pets"),
+    ("retype-field-list-of-interface-to-member", "roles: [Role!] = [ADMIN]): [Named]", "roles: [Role!] = [ADMIN]): [User]", "search"),
     # an object's own refinement of a field it inherits from an interface (the interface itself is unchanged)
     ("retype-inherited-field-tightened-on-object", "type Dog implements Named {\n  name: String\n", "type Dog implements Named {\n  name: String!\n", "name"),
     ("inherited-field-argument-added-on-object", "type Cat implements Named {\n  name: String\n", "type Cat implements Named {\n  name(upper: Boolean): String\n", "upper"),
